@@ -178,6 +178,9 @@ func (c *Ctx) RunProofs() {
 	}
 	if c.Thorough() {
 		lout, lerr := run(LeanDir, "lake", "env", "leanchecker", "GqlProofs.Props."+c.Prop)
+		if strings.Contains(lout, "found a problem") || strings.Contains(lout, "uncaught exception") {
+			lerr = fmt.Errorf("leanchecker reported a problem")
+		}
 		c.Ev.Extra["leanchecker"] = map[string]any{"ok": lerr == nil, "tail": tailStr(lout, 300)}
 		if lerr != nil {
 			c.ReportNoInput("theorem", "leanchecker", "leanchecker rejected GqlProofs.Props."+c.Prop+": "+tailStr(lout, 300), map[string]any{"theorem": "leanchecker"})
